@@ -501,7 +501,7 @@ def run_property(a):
 
 
 PROPERTY_EXTRAS = {}
-PROPERTY_LEVEL = {"C09": "other", "C08": "other", "C16": "other"}
+PROPERTY_LEVEL = {"C09": "other", "C08": "other", "C16": "other", "C10": "other"}
 PROPERTY_EXPLANATION = {"C09": "bounded symbolic execution of the real Tracker over all histories of the stated length/width from the initial state (per-frame detection counts enumerated as cases; scores symbolic; every matching outcome explored); obligations per frame discharged by z3 -- a bounded stand-in, not an unbounded proof"}
 
 
